@@ -1118,6 +1118,50 @@ def _climb_degenerate(runner, before, op, climb):
         return False
 
 
+def _integrated_coincide(sh, h, climb):
+    """the integrator puts two consecutive images of the string `sh` on the same point (to rounding): the arc
+    coordinates handed to the spline are not strictly increasing and the implementation raises; no statement."""
+    _, tau = _geometry(sh.coord)
+    rows = []
+    for i, x in enumerate(sh.coord):
+        t = [Fraction(v) for v in tau[i]] if (i in climb and all(math.isfinite(v) for v in tau[i])) else None
+        rows.append([_fl(v) for v in sh.integrate_exact(x, h, tau=t)[0]])
+    if not all(math.isfinite(v) for r in rows for v in r):
+        return True
+    scale = max(1.0, max(abs(v) for r in rows for v in r))
+    return min(math.sqrt(sum((a - b) ** 2 for a, b in zip(r0, r1))) for r0, r1 in zip(rows, rows[1:])) <= 1e-9 * scale
+
+
+def _coincide_on_the_way(runner, before, op, climb):
+    """step / relax raised: is it because integrated images coincide at the step that raises?"""
+    np = _np()
+    if before.n < 2:
+        return False
+    if op['op'] == 'step':
+        return _integrated_coincide(before, op['h'], climb)
+    try:
+        with np.errstate(all='ignore'):
+            cur = runner.build(before.copy(), via='ISMPath', gname=('callable' if before.g == 'an' else 'function'), iname='function')
+            sel = []
+            for phase, nmax in (('r', op['r']), ('c', op['c'])):
+                if phase == 'c':
+                    sel = _Selection.want([float(v) for v in np.asarray(cur.energy(), dtype=float).ravel()], op.get('cp'))
+                for _ in range(nmax):
+                    try:
+                        nxt = cur.step(timestep=op['h'], **({'climbindex': np.array(sel, dtype=int)} if phase == 'c' else {}))
+                    except Exception:  # noqa
+                        sh = before.copy()
+                        sh.coord = np.array(cur.coord, dtype=float).tolist()
+                        return _integrated_coincide(sh, op['h'], sel)
+                    d = float(np.linalg.norm(nxt.coord - cur.coord, axis=-1).max()) / op['h']
+                    cur = nxt
+                    if d < op.get('tol', 0.0):
+                        break
+    except Exception:  # noqa
+        return False
+    return False
+
+
 def _respacing_oracle(before, op, climb, new, cond):
     """the whole step, interior images included: integrate every image exactly, then place the images at equal arc
     coordinate within each segment between pinned images on the cubic spline through the integrated images (scipy's
@@ -1210,6 +1254,9 @@ def _check_step(ctx, report, model, model_kind, runner, idx, before, op, res, ra
     if raised:
         if _climb_degenerate(runner, before, op, climb):
             ctx.stats.case(f'{model_kind}:path-degenerate-tangent', repr(op), nontrivial=False)
+            return
+        if res[1] == 'ValueError' and _coincide_on_the_way(runner, before, op, climb):
+            ctx.stats.case(f'{model_kind}:path-coincident-after-integration', repr(op), nontrivial=False)
             return
         report(f'path:{kind}-raises', f'{_brief(op)} raised {res[1]}: {res[2]}')
         return
@@ -1401,7 +1448,12 @@ RULE = ('random dyadic matrices A (dim 1-6), vectors y, steps h for euler/rungek
         'images, time step 1/8..1/2 of the stable limit 1/Lipschitz); relax(0-2, 0-1, tolerance 0)} each followed by a '
         'read of coord, energy(), grad_energy(), arccoord, unittangent, force; stepping continues on the returned path '
         'half of the time. Excluded: coincident consecutive images / cancelling unit differences (tangent 0/0), strings '
-        'that ran away (|coord| grew 100-fold: cubic energies are unbounded below), exact iterates above 40000 bits. '
+        'that ran away (|coord| grew 100-fold: cubic energies are unbounded below), exact iterates above 40000 bits, steps '
+        'whose integrated images coincide (the spline refuses). Round 2: every euler/rk case also with y·2^k (k = -60…60) and '
+        'with (A·2^k, h·2^-k); arrays of 1-5 points advanced in one call, row n by its own matrix, matrices / a gain handed '
+        'through the keyword arguments of the step (defaults zero), at a common scale 2^k; relax with a scripted step and image '
+        'energies tabulated per (image, steps behind the string) over few values (ties, flat tops, high end images), 2-8 '
+        'images, climbpoints None/0/1/2/3/N, against climbIndices; relax ops with climbpoints and, on longer paths, a tolerance. '
         'distinct = distinct canonical input line / (state, operation); non-trivial = A, y non-zero and h != 0, at least '
         'two images')
 ASSUMPTIONS = ['IEEE double rounding of the implementation is bounded by rtol 1e-9 on the dyadic integrator inputs (|.|<=8, '
@@ -2333,7 +2385,11 @@ MANIFEST = {
             'kernel against them. The path object (coord, energyfxn, gradientfxn, gradientkwargs, integratorfxn) is a Lean '
             'state machine whose reads are proved to depend on the current field values only, with unit tangents, '
             'monotone arc coordinates, critical points = fixed points of a step; it is tied to BasePath/ISMPath by '
-            'operation sequences on one object. Relaxation to the saddle is partial (explored on the implementation).',
+            'operation sequences on one object. A step commutes with a change of the unit of the state and of time '
+            '(homogeneity theorems; tied by scale sweeps 2^-60…2^60), the climbing images relax chooses are the first '
+            'climbpoints interior maxima (climbIndices theorems; tied through a scripted relax), tangents do not depend on '
+            'the unit of length. Relaxation to the saddle is partial (explored on the implementation, mirror-symmetric '
+            'strings included).',
     'note': 'Trusted: Lean kernel + propext/Classical.choice/Quot.sound; the AST translator (harness/translate.py, '
             'props/c20.py); numpy matmul/einsum/norm, scipy CubicSpline at its knots; float rounding bounded by derived '
             'first-order bounds in the correspondence. Convergence of relax() and the re-spaced interior images of a '
